@@ -353,7 +353,7 @@ PROPS = {
         'projection': [(r'view_vals', None)],
         'own_ops': {'XCHG', 'RM', 'SET'},
         'extra': c14_extra,
-        'rule': "gc_harness: seeded histories over 8 component types holding pointers/slices/maps/strings whose referents are reachable only through the component; finalizers audit that live referents are never collected and removed ones are released; three collector regimes (between bursts, GOGC=1, concurrent goroutine)",
+        'rule': "gc_harness: seeded histories over 9 component types holding pointers/slices/maps/strings/arrays of pointers whose referents are reachable only through the component; finalizers audit that live referents are never collected and removed ones are released; three collector regimes (between bursts, GOGC=1, concurrent goroutine)",
     },
     'C15': {
         'budget': _merge(_p('reset', 220, 4000), _p('cache', 40, 500)),
